@@ -1,6 +1,6 @@
 CONSTANTS
-  MaxBlocks = 2
-  MaxDepth = 1
+  MaxBlocks = 8
+  MaxDepth = 3
   Level = 2
   EnabledKinds = {"para", "atx", "setext", "hr", "fence", "code", "def", "quote", "list", "table", "html"}
 INIT Init
@@ -9,5 +9,5 @@ INVARIANT TypeOK
 INVARIANT LinesOrdered
 INVARIANT FirstWins
 INVARIANT Export
-CONSTRAINT NormalForm
 CHECK_DEADLOCK FALSE
+CONSTRAINT NormalForm
